@@ -20,9 +20,9 @@ ALGOS = ["omopso", "smpso", "psoga"]
 
 
 def cases(ctx):
-    for i in range(ctx.pick(900, 48000)):
+    for i in range(ctx.pick(900, 576000)):
         yield "direct", {"seed": ctx.subseed("d", i), "algo": ALGOS[i % 3]}
-    for i in range(ctx.pick(54, 2400)):
+    for i in range(ctx.pick(54, 28800)):
         yield "insitu", {"seed": ctx.subseed("is", i), "algo": ALGOS[i % 3]}
 
 
